@@ -191,17 +191,22 @@ func (f *poolFile) disarm() int {
 }
 
 type fakePool struct {
-	file     *poolFile
-	newFiles int
+	mu    sync.Mutex
+	files []*poolFile
 }
 
 func (p *fakePool) NewFile(holeSource pool.HoleSource, size uint64) (filesystem.FileReadWriter, error) {
-	p.newFiles++
-	if p.newFiles > 1 {
-		panic("harness: pool asked for a second file")
-	}
-	p.file = newPoolFile(size)
-	return p.file, nil
+	f := newPoolFile(size)
+	p.mu.Lock()
+	p.files = append(p.files, f)
+	p.mu.Unlock()
+	return f, nil
+}
+
+func (p *fakePool) count() int {
+	p.mu.Lock()
+	defer p.mu.Unlock()
+	return len(p.files)
 }
 
 // ---------------------------------------------------------------------
